@@ -80,6 +80,7 @@ def make_registry():
             pass
 
     reg.models[super] = lambda interp, *a: _RestOfInitChain()
+    reg.ctor_models[dict] = lambda interp, *a, **k: dict(*a, **k)  # python dicts are real dicts (symbolic values, concrete keys)
     import quantem.diffractive_imaging.probe_models as pmod
 
     reg.models[pmod.validate_tensor] = m_validate_tensor
@@ -638,7 +639,11 @@ def _same_items(d, e):
 
 def bk_models(ctx):
     """which concrete model class + one other, already existing, model of the same class with its own dict"""
-    cls = pick(ctx, "model", [OP, PP])
+    base = pick(ctx, "model", [OP, PP])
+    # hermetic stand-in for the class-level state: a throw-away subclass carrying its own copy of DEFAULT_CONSTRAINTS, so that a
+    # defective body that writes into the class-level dict cannot leak into the checker process (same MRO, same name, same code)
+    cls = type(base.__name__, (base,), {"DEFAULT_CONSTRAINTS": dict(CLASS_DEFAULTS[base]), "__module__": base.__module__})
+    CLASS_DEFAULTS[cls] = dict(CLASS_DEFAULTS[base])
     other = Obj(cls, dict(_constraints=dict(cls.DEFAULT_CONSTRAINTS)))
     return cls, other
 
@@ -1240,6 +1245,19 @@ def rt_history(inp):
             problems.append("model A: identical_slices was requested but its slices differ")
         if typ == "potential" and reqA.get("positivity", True) and float(after.min()) < 0:
             problems.append(f"model A: positivity requested but min value {float(after.min()):.3g} < 0")
+        for how in ("setter", "add"):
+            keep = dict(A.constraints)
+            try:
+                if how == "setter":
+                    A.constraints = {"no_such_constraint": 1}
+                else:
+                    A.add_constraint("no_such_constraint", 1)
+                problems.append(f"unknown constraint key accepted by the {how}")
+            except KeyError:
+                pass
+            if dict(A.constraints) != keep:
+                problems.append(f"rejected request changed the constraints ({how})")
+                A.constraints.pop("no_such_constraint", None)
         C = mk()
         if dict(C.constraints) != CLASS_DEFAULTS[OP] or dict(ObjectPixelated.DEFAULT_CONSTRAINTS) != CLASS_DEFAULTS[OP]:
             bad = {k: (v, C.constraints.get(k)) for k, v in CLASS_DEFAULTS[OP].items() if C.constraints.get(k) != v}
